@@ -85,6 +85,8 @@ type SScript struct {
 	Ops     []SOp          `json:"ops"`
 	Faults  map[string]int `json:"faults"`
 	Targets []string       `json:"targets"`
+	// MsgFaults: running numbers of the drop-message store calls that fail (these calls are not parked, see RigS.gate)
+	MsgFaults []int `json:"msg_faults,omitempty"`
 }
 
 const replicateChan = "by-dev-replicate-msg"
@@ -265,6 +267,9 @@ func genSOps(rng *Rng, sc *SScript, prop string) {
 		}
 		if prop == "C05" || prop == "C03" {
 			sc.Knobs.Crashes = rng.Range(0, 2)
+		}
+		if rng.Pct(20) {
+			sc.MsgFaults = []int{rng.Range(0, 5)}
 		}
 	default:
 		// lifecycle / ownership / API shapes: sequences over several tasks and targets
